@@ -50,8 +50,81 @@ func nearestJiaZi(j int) []int {
 	return []int{j - 30, j + 30}
 }
 
+func c16MonthObjects(w *W, y int) {
+	reform := func(yy int) bool { return (yy >= 7 && yy <= 24) || (yy >= 235 && yy <= 241) }
+	var items []*calendar.LunarMonth
+	if msg, p := try(func() {
+		for e := calendar.NewLunarYear(y).GetMonths().Front(); e != nil; e = e.Next() {
+			items = append(items, e.Value.(*calendar.LunarMonth))
+		}
+	}); p {
+		w.Viol(fmt.Sprintf("C16:monthObjects:panic:%d", y), msg, y)
+		return
+	}
+	star := func(m *calendar.LunarMonth) int { return m.GetNineStar().GetIndex() }
+	for i, it := range items {
+		yy, mm := it.GetYear(), it.GetMonth()
+		w.R.Evals++
+		var direct, viaPrev, viaNext *calendar.LunarMonth
+		if msg, p := try(func() {
+			direct = calendar.NewLunarMonthFromYm(yy, mm)
+			if i > 0 {
+				viaPrev = items[i-1].Next(1)
+			}
+			if i+1 < len(items) {
+				viaNext = items[i+1].Next(-1)
+			}
+		}); p {
+			w.Viol(fmt.Sprintf("C16:monthObjects:panic:%d/%d", yy, mm), msg, []int{yy, mm})
+			continue
+		}
+		if direct == nil {
+			continue
+		}
+		want := star(direct)
+		if want < 0 || want > 8 {
+			w.Viol(fmt.Sprintf("C16:monthObject:range:%d/%d", yy, mm), fmt.Sprintf("month star index %d", want), []int{yy, mm})
+		}
+		for name, o := range map[string]*calendar.LunarMonth{"item of the month list of year " + fmt.Sprint(y): it, "previous month.Next(1)": viaPrev, "next month.Next(-1)": viaNext} {
+			if o == nil || o.GetYear() != yy || o.GetMonth() != mm {
+				continue // a walk that lands elsewhere is C06's business
+			}
+			w.R.Transitions++
+			if g := star(o); g != want {
+				w.Viol(fmt.Sprintf("C16:monthObject:route:%d/%d", yy, mm), fmt.Sprintf("lunar month %d/%d: star index %d when built directly, %d as %s", yy, mm, want, g, name), []int{yy, mm})
+			}
+		}
+		if i > 0 && !reform(yy) && !reform(items[i-1].GetYear()) {
+			pm := items[i-1].GetMonth()
+			if pm < 0 {
+				pm = -pm
+			}
+			am := mm
+			if am < 0 {
+				am = -am
+			}
+			if wantStep := mod(star(items[i-1])-mod(am-pm, 12), 9); star(it) != wantStep {
+				w.Viol(fmt.Sprintf("C16:monthObject:step:%d/%d", yy, mm), fmt.Sprintf("month star of %d/%d is %d after %d for %d/%d: one step back per numbered month expected", yy, mm, star(it), star(items[i-1]), items[i-1].GetYear(), items[i-1].GetMonth()), []int{yy, mm})
+			}
+			w.R.Nontrivial++
+		}
+	}
+	// year objects
+	if y > 1 {
+		var a, b int
+		if msg, p := try(func() {
+			a, b = calendar.NewLunarYear(y-1).GetNineStar().GetIndex(), calendar.NewLunarYear(y).GetNineStar().GetIndex()
+		}); p {
+			w.Viol(fmt.Sprintf("C16:yearObject:panic:%d", y), msg, y)
+		} else if b != mod(a-1, 9) || b != mod(2026-y, 9) {
+			w.Viol(fmt.Sprintf("C16:yearObject:%d", y), fmt.Sprintf("LunarYear star index %d for %d after %d for %d; one step back per year, anchored at 2024 = star three (index 2) gives %d", b, y, a, y-1, mod(2026-y, 9)), y)
+		}
+	}
+}
+
 func runC16(w *W) {
 	perturbCache = true
+	walkLunar = true
 	// naming getters index the same star
 	for i := 0; i < 9; i++ {
 		ns := calendar.NewNineStar(i)
@@ -60,6 +133,15 @@ func runC16(w *W) {
 			ns.GetLuckInQiMen() != calendar.LUCK_QI_MEN[i] || ns.GetLuckInXuanKong() != calendar.LUCK_XUAN_KONG[i] || ns.GetYinYangInQiMen() != calendar.YIN_YANG_QI_MEN[i] || ns.GetTypeInTaiYi() != calendar.TYPE_TAI_YI[i] ||
 			ns.GetBaMenInQiMen() != calendar.BA_MEN_QI_MEN[i] || ns.GetSongInTaiYi() != calendar.SONG_TAI_YI[i] {
 			w.Viol(fmt.Sprintf("C16:naming:%d", i), "naming getters do not all index the same star", i)
+		}
+	}
+	// month and year *objects*: the star of a lunar-month object is that of its (year, month) however the object
+	// was reached (directly, as an item of its own or a neighbouring year's month list, by Next from a neighbour), and
+	// along the numbered months it steps back by one per month (a leap month repeats its number's star), across
+	// New Year too; the year object's star steps back by one per year
+	for _, r := range w.Shard.Ranges {
+		for y := r[0]; y <= r[1]; y++ {
+			c16MonthObjects(w, y)
 		}
 	}
 	type snap struct {
